@@ -228,7 +228,9 @@ static void run_module(Ctx& c, uint64_t k, uint64_t a_size, uint64_t dft_size, u
   Buf D = ar.alloc(dft_size * spq::dft_limb_bytes(NTT120, N), OVER, 0, prefill, seed + 1);
   Buf G = ar.alloc(big_size * spq::big_limb_bytes(NTT120, N), OVER, 0, prefill + 1, seed + 2);
   const uint64_t tb = vec_znx_idft_tmp_bytes(mod);
-  Buf T = ar.alloc(variant == 0 ? tb : 0, OVER, 0, prefill + 2, seed + 3);
+  // scratch: exactly tmp_bytes, ending at a guard page, or (one case in two) at an offset of 8..56 bytes from a 64-byte boundary with
+  // canaries / an exact heap block behind it -- the documented minimum alignment of a scratch pointer is 8 bytes
+  Buf T = ar.alloc(variant == 0 ? tb : 0, ((seed >> 7) & 1) ? MID : OVER, 8 * (1 + (seed >> 8) % 7), prefill + 2, seed + 3);
   int64_t* a = A.as<int64_t>();
   bool saw_min = false, saw_max = false;
   uint64_t nz = 0;
